@@ -338,6 +338,7 @@ type World struct {
 	// lock holders: lock path -> set of proc idx (pointer identity via map)
 	holders      map[string]map[*Proc]int // value: fd
 	OnPost       func(w *World, p *Proc, e *Ev)
+	OnExit       func(w *World, p *Proc)
 	TraceOn      bool
 	TraceLn      []string
 	IlvHash      hash.Hash // hash of the sequence of context switches (proc label, op class)
@@ -574,6 +575,9 @@ func (w *World) reap(p *Proc) {
 	p.ReturnSeq = w.Seq
 	if p.ExitCode == 97 {
 		harnessf("interposer died in p%d: %s", p.Idx, p.Stderr)
+	}
+	if w.OnExit != nil {
+		w.OnExit(w, p)
 	}
 	norm := func(b []byte) []byte { return bytes.ReplaceAll(b, []byte(w.Root), []byte("$W")) }
 	// stderr text is not part of the trace digest: ergo builds validation
@@ -970,8 +974,8 @@ func (s *preemptSched) Pick(w *World, procs []*Proc, runnable []int) int {
 			otherPos = append(otherPos, i)
 		}
 	}
-	if ai >= 0 && procs[s.A].Pend != nil && procs[s.A].Pend.K < s.K {
-		return ai
+	if ai >= 0 && (procs[s.A].State == psNew || procs[s.A].Pend != nil && procs[s.A].Pend.K < s.K) {
+		return ai // A runs (is started, then stepped) until its K-th visible call is parked
 	}
 	if len(others) > 0 {
 		j := s.inner.Pick(w, procs, others)
